@@ -105,7 +105,7 @@ func drawWeighted(t *rapid.T, w []int, label string) int {
 	return len(w) - 1
 }
 
-// genPlainModulus draws a prime t = 1 mod 2^(logn+1) with about tbits bits, t < q0, not in used.
+// genPlainModulus draws a prime t = 1 mod 2^(logn+1) with about tbits bits, t <= q0/2 (required by bgv.NewParameters), not in used.
 func genPlainModulus(t *rapid.T, logn, tbits int, q0 uint64, used map[uint64]bool) uint64 {
 	m := uint64(2) << logn
 	pick := rapid.IntRange(0, 23).Draw(t, "t_pick")
@@ -117,7 +117,7 @@ func genPlainModulus(t *rapid.T, logn, tbits int, q0 uint64, used map[uint64]boo
 		var avail []uint64
 		seen := map[uint64]bool{}
 		for _, p := range cands {
-			if p < q0 && !used[p] && !seen[p] {
+			if p <= q0>>1 && !used[p] && !seen[p] {
 				avail = append(avail, p)
 				seen[p] = true
 			}
@@ -129,7 +129,7 @@ func genPlainModulus(t *rapid.T, logn, tbits int, q0 uint64, used map[uint64]boo
 	// go upward if nothing below (tiny tbits with large m)
 	for b := tbits + 1; b <= 60; b++ {
 		for _, p := range h.Primes(b, m, 12, false) {
-			if p < q0 && !used[p] {
+			if p <= q0>>1 && !used[p] {
 				return p
 			}
 		}
